@@ -809,6 +809,55 @@ fn aliased_inputs(eng: &mut Eng) {
     eng.sample(|| "SumStream over [x, x, x] with x = 3 at time 5: 9 at time 5".to_string());
 }
 
+/// Present values are combined with exactly the corresponding operator: the two-input arithmetic
+/// combinators and the 3-ary sum/product over a grid of special values (signed zeros, units,
+/// halves, non-dyadic, tiny, huge, 2^24), compared bit for bit with the raw operator (exponent:
+/// with the build's own powf called directly). A special case in a shim or helper (0^0, x/1,
+/// x*0, x+-0) that the two fixed values of the category engine never meet shows here.
+fn value_grid(e: &mut Eng) {
+    const G: [f32; 16] = [0.0, -0.0, 1.0, -1.0, 2.0, 0.5, 3.0, -2.5, 1e-3, 100.0, f32::MIN_POSITIVE, 1e30, -1e30, 16777216.0, 0.1, 7.0];
+    let same = |a: f32, b: f32| a.to_bits() == b.to_bits() || (a.is_nan() && b.is_nan());
+    for &x in &G {
+        for &y in &G {
+            let a = rc(Scr::<f32>::new(Ok(Some(Datum::new(Time(3), x)))));
+            let b = rc(Scr::<f32>::new(Ok(Some(Datum::new(Time(8), y)))));
+            let r = guard(|| {
+                [
+                    Sum2::new(rf(&a), rf(&b)).get(),
+                    Product2::new(rf(&a), rf(&b)).get(),
+                    DifferenceStream::new(rf(&a), rf(&b)).get(),
+                    QuotientStream::new(rf(&a), rf(&b)).get(),
+                    ExponentStream::new(rf(&a), rf(&b)).get(),
+                    SumStream::new([dyn_getter(&a), dyn_getter(&b), dyn_getter(&a)]).get(),
+                    ProductStream::new([dyn_getter(&a), dyn_getter(&b), dyn_getter(&a)]).get(),
+                ]
+            });
+            let want = [x + y, x * y, x - y, x / y, crate::refmodels::backend_powf(x, y), x + y + x, x * y * x];
+            let names = ["sum2", "product2", "difference", "quotient", "exponent", "sum3", "product3"];
+            e.executions += 7;
+            e.states += 7;
+            e.transitions += 7;
+            e.checks += 7;
+            e.nontrivial += 7;
+            match r {
+                Err(m) => e.violation("comb:value-grid:panic", 1, || format!("present inputs {:?} and {:?}: a combinator panicked: {}", x, y, m)),
+                Ok(got) => {
+                    for k in 0..7 {
+                        let ok = match &got[k] {
+                            Ok(Some(d)) => d.time == Time(8) && same(d.value, want[k]),
+                            _ => false,
+                        };
+                        e.outcome(h64(&(k, want[k].to_bits())));
+                        if !ok {
+                            e.violation(&format!("comb:{}:value", names[k]), 1, || format!("{} of present inputs {:?} (t=3) and {:?} (t=8) gives {:?}, the operator on the raw values gives {:?} (bits {:#x}) at t=8", names[k], x, y, got[k], want[k], want[k].to_bits()));
+                        }
+                    }
+                }
+            }
+        }
+    }
+}
+
 pub fn run(ctx: &Ctx) -> Vec<Eng> {
     let (mw, mn) = if ctx.thorough { (6, 8) } else { (5, 5) };
     let mut e1 = Eng::new(
@@ -825,7 +874,13 @@ pub fn run(ctx: &Ctx) -> Vec<Eng> {
     run_fixed(&mut e2, false);
     aliased_inputs(&mut e2);
     e2.bounds.push_str("; plus aliasing: one getter object (present / absent / erroring) in every slot of the n-ary streams (arities 2..5), the same around a different getter, and as both inputs of the two-input arithmetic forms");
-    vec![e1, e2]
+    let mut e3 = Eng::new(
+        "c02-value-grid",
+        "Sum2, Product2, difference, quotient, exponent and the 3-ary sum and product with all inputs present, over every ordered pair of a 16-value grid of special values (signed zeros, +-1, 2, 0.5, 3, -2.5, 1e-3, 100, the smallest normal, +-1e30, 2^24, 0.1, 7): value bit-identical to the raw operator on the values in input order (exponent: to the build's own powf called directly; NaN matches NaN), time = the newer input's",
+        "16 x 16 value pairs x 7 combinators",
+    );
+    value_grid(&mut e3);
+    vec![e1, e2, e3]
 }
 
 /// One n-ary case (sum, product, newest-of; f32 and Quantity payloads) judged against the
